@@ -6,7 +6,7 @@
    per-signer limits and the partial-signature rules are covered by the correspondence check
    (harness/cmd/hx-c10: real instances, real validators), not by a theorem. *)
 From Coq Require Import List NArith ZArith Bool.
-From SSV Require Import Qbft.Model Qbft.Compact Qbft.Honest.
+From SSV Require Import Qbft.Model Qbft.Compact Qbft.Honest Qbft.Bridge.
 Import ListNotations.
 Local Open Scope N_scope.
 
@@ -54,6 +54,26 @@ Theorem C10_decided_signers_sorted : forall c msgs full agg,
   v_sort_agg (var c) = true -> aggregate_commits c msgs full = Some agg -> sorted_le (c_signers (co agg)) = true.
 Proof. exact aggregate_signers_sorted. Qed.
 Print Assumptions C10_decided_signers_sorted.
+
+(* The validation model (Validation/Model.v, the subject of C08/C09) and the protocol model carry two
+   independently written transcriptions of specqbft.RoundRobinProposer; they compute the same leader and
+   panic on the same inputs for ALL uint64 heights and rounds and all committees.  Hence the proposal
+   of C10_leader_proposal_valid passes the validator's leader rule (not ErrSignerNotLeader), and the
+   range guard in front of it (the F1 repair) never excludes a reachable round. *)
+Theorem C10_leader_models_agree : forall c h r,
+  (h < 18446744073709551616)%N -> (r < 18446744073709551616)%N ->
+  match V.round_robin (committee c) h r with
+  | V.LeaderIs x => proposer c h r = Some x
+  | V.LeaderPanic _ => proposer c h r = None
+  end.
+Proof. exact leader_models_agree. Qed.
+Print Assumptions C10_leader_models_agree.
+
+Theorem C10_leader_guard_admits_reachable_rounds : forall sh h r,
+  V.s_committee sh <> [] -> (1 <= r)%N -> (r <= 4611686018427387903)%N -> (h <= 9223372036854775807)%N ->
+  V.rr_defined sh h r = true.
+Proof. exact rr_defined_in_range. Qed.
+Print Assumptions C10_leader_guard_admits_reachable_rounds.
 
 (* The complete statement (not proved; see DESIGN.md C10): in every execution of the system of
    Qbft/System.v that respects the timing assumptions, every message emitted by a correct operator,
